@@ -49,6 +49,7 @@ func checkC18(c *Ctx, r *Report) {
 	keyScratchSize(c, r, "C18.R3.key-scratch")
 	noPackageState(c, r, "C18.R1.key-from-record", []string{"DNSKEY.publicKeyRSA", "DNSKEY.publicKeyECDSA", "DNSKEY.publicKeyED25519"}, "the public key a KEY is verified against is one decoded earlier from another record with the same name, algorithm and tag: a message signed with that other key verifies, and one signed with this key is refused")
 	borrow(c, r, c08LenForm, "C08.R1.len-form", "C18.R3.opt-len", 1, "OPT.len adds the packed length of every option", func(k string) bool { return strings.HasPrefix(k, "OPT") }, "Sign's exactly sized buffer overflows for a message with such an option when compression saves nothing: 'buffer size too small'")
+	round12(c, r, "C18")
 }
 
 func c18R1(c *Ctx, r *Report) {
